@@ -211,6 +211,11 @@ func (c *Ctx) rawSchema(depth int, pos string) *Schema {
 		}
 	case "ref":
 		name := rapid.SampledFrom(SortedKeys(c.Doc.Components.Schemas)).Draw(t, "ref")
+		// a date-time component is `type X time.Time` without JSON methods (known
+		// finding): referenced from a JSON position it is encoded as {}
+		if tgt := c.Doc.ResolveSchema(c.Doc.Components.Schemas[name]); tgt != nil && tgt.Type == "string" && tgt.Format == "date-time" && !c.Allow("json-ref:datetime-component") {
+			return &Schema{Type: "string", Format: "date-time"}
+		}
 		return &Schema{Ref: RefSchemas + name}
 	}
 	// nullable is drawn for primitives, any, inline objects and maps only: for arrays
@@ -261,7 +266,14 @@ func (c *Ctx) addProps(depth int) *AddProps {
 		return &AddProps{Bool: Bool(true)}
 	default:
 		c.Tag("addprops:schema")
-		return &AddProps{Schema: c.Schema(min(depth-1, 1), "addprops")}
+		s := c.Schema(min(depth-1, 1), "addprops")
+		// an inline object under additionalProperties compiles but is encoded with Go
+		// field names (known finding): reference a component instead
+		if s.Ref == "" && (s.Type == "object" || s.Type == "array" && s.Items != nil && s.Items.Ref == "" && s.Items.Type == "object") && !c.Allow("addprops:inline-object") {
+			s.Nullable = false
+			s = c.hoist("Sch", s)
+		}
+		return &AddProps{Schema: s}
 	}
 }
 
@@ -371,13 +383,31 @@ func (c *Ctx) oneOfSchema(depth int) *Schema {
 		return s
 	}
 	c.Tag("oneOf:plain")
+	// variants are pairwise disjoint (no document is valid for two of them; otherwise
+	// no decoder could preserve the chosen variant): at most one primitive per JSON
+	// type group, and every object variant requires a property of its own
+	usedGroup := map[string]bool{}
+	requireOwn := func(obj *Schema) {
+		names := SortedKeys(obj.Properties)
+		have := map[string]bool{}
+		for _, r := range obj.Required {
+			have[r] = true
+		}
+		if len(names) > 0 && !have[names[0]] {
+			obj.Required = append(obj.Required, names[0])
+			sort.Strings(obj.Required)
+		}
+		// the required property must not be nullable-with-null ambiguity: keep as drawn
+	}
 	for i := 0; i < n; i++ {
 		switch rapid.IntRange(0, 2).Draw(t, "oneof_member") {
 		case 0:
 			name := c.objectComponent(depth, "oneof", true)
+			requireOwn(c.Doc.Components.Schemas[name])
 			s.OneOf = append(s.OneOf, &Schema{Ref: RefSchemas + name})
 		case 1:
 			m := c.plainObject(max(depth-1, 0))
+			requireOwn(m)
 			if c.AllowSchema(m, "oneof-member") {
 				s.OneOf = append(s.OneOf, m)
 				break
@@ -385,11 +415,21 @@ func (c *Ctx) oneOfSchema(depth int) *Schema {
 			fallthrough
 		default:
 			m := c.prim("oneof_prim").Schema()
-			if !c.AllowSchema(m, "oneof-member") {
-				m = &Schema{Type: "string"}
+			group := m.Type
+			if group == "integer" {
+				group = "number"
 			}
+			if usedGroup[group] || !c.AllowSchema(m, "oneof-member") {
+				continue
+			}
+			usedGroup[group] = true
 			s.OneOf = append(s.OneOf, m)
 		}
+	}
+	for len(s.OneOf) < 2 {
+		name := c.objectComponent(depth, "oneof", true)
+		requireOwn(c.Doc.Components.Schemas[name])
+		s.OneOf = append(s.OneOf, &Schema{Ref: RefSchemas + name})
 	}
 	return s
 }
